@@ -509,7 +509,7 @@ theorem rt_parseAdvancedQuantity_none (q : AQty) (p : QPad) (s : BP α) (hq : q.
       have h3 := consumeWhile_split (fun k => k != .word) ({ s with cur := (L ++ pre).length } : BP α)
         (L ++ pre) [] (h :: r ++ post) (by rw [hts]; simp) rfl (by simp)
         (by intro t ht'; simp at ht'; subst ht'; simp [hhw])
-      simp only [h3, List.getLast?_nil]
+      simp only [h3, List.reverse_nil, List.find?_nil]
       exact ⟨_, rfl⟩
     · have htx' : q.val.isText = false := by simpa using htx
       have hnw : ∀ t ∈ h :: r ++ post, (t.kind != TK.word) = true := by
@@ -523,8 +523,8 @@ theorem rt_parseAdvancedQuantity_none (q : AQty) (p : QPad) (s : BP α) (hq : q.
       have h3 := consumeWhile_split (fun k => k != .word) ({ s with cur := (L ++ pre).length } : BP α)
         (L ++ pre) (h :: r ++ post) [] (by rw [hts]; simp) rfl hnw (by simp)
       simp only [h3]
-      cases hgl : (h :: r ++ post).getLast? with
-      | none => simp at hgl
+      cases hgl : (h :: r ++ post).reverse.find? (fun t => t.kind != TK.blockComment) with
+      | none => exact ⟨_, rfl⟩
       | some l' =>
         dsimp only
         by_cases hk : (l'.kind != TK.ws) = true
